@@ -77,6 +77,59 @@ fn check_surface(w: i32, h: i32, pixels: &[u32], st: &mut Stats, with_png: bool,
     } else {
         let _ = dt.into_inner();
     }
+    // a surface over a slice that starts at an odd word of a larger allocation (half-aligned for 8 byte access)
+    for off in 0..2usize {
+        let mut store = vec![0xdeadbeefu32; n + 3];
+        store[off..off + n].copy_from_slice(pixels);
+        {
+            let dt = DrawTarget::from_backing(w, h, &mut store[off..off + n]);
+            if dt.get_data() != pixels {
+                return Some("from_backing over a sub-slice shows different pixels".to_string());
+            }
+            if with_png && w > 0 && h > 0 {
+                let path = format!("{}/c19-{}-{}-s{}.png", work_dir(), std::process::id(), tag, off);
+                let res = dt.write_png(&path);
+                let dec = decode_png(&path);
+                let _ = std::fs::remove_file(&path);
+                if let (Ok(()), Ok((_, _, data, _, _))) = (res, dec) {
+                    for i in 0..n {
+                        let c = ch(pixels[i]);
+                        let a = c[0];
+                        let un = |v: i32| -> u8 { if a > 0 { (v * 255 / a) as u8 } else { v as u8 } };
+                        if data[4 * i..4 * i + 4] != [un(c[1]), un(c[2]), un(c[3]), a as u8] {
+                            return Some(format!("PNG of a surface backed by a slice at word offset {}: pixel {} = {:?} for the word {}", off, i, &data[4 * i..4 * i + 4], hex(pixels[i])));
+                        }
+                    }
+                    st.add("png_files_checked", 1);
+                } else {
+                    return Some(format!("write_png/decode failed for a slice-backed surface at word offset {}", off));
+                }
+            }
+        }
+        if store[..off].iter().chain(store[off + n..].iter()).any(|p| *p != 0xdeadbeef) {
+            return Some("a slice-backed surface wrote outside its slice".to_string());
+        }
+    }
+    // from_vec: a longer recycled vector is cut to width*height, a shorter one is extended with zeros
+    {
+        let mut longer = pixels.to_vec();
+        longer.extend_from_slice(&[0x11223344, 0x55667788, 0x99aabbcc]);
+        let dt = DrawTarget::from_vec(w, h, longer);
+        if dt.get_data() != pixels || dt.get_data_u8().len() != 4 * n {
+            return Some(format!("from_vec with a longer vector exposes {} pixels for a {}x{} surface", dt.get_data().len(), w, h));
+        }
+        if dt.into_vec().len() != n {
+            return Some("into_vec after from_vec with a longer vector returns more than width*height pixels".to_string());
+        }
+        if n >= 2 {
+            let dt = DrawTarget::from_vec(w, h, pixels[..n / 2].to_vec());
+            let d = dt.get_data();
+            if d.len() != n || d[..n / 2] != pixels[..n / 2] || d[n / 2..].iter().any(|p| *p != 0) {
+                return Some("from_vec with a shorter vector is not extended with transparent pixels".to_string());
+            }
+        }
+        st.add("from_vec_resizes_checked", 1);
+    }
     // SolidSource::to_u32
     if n > 0 {
         let c = ch(pixels[0]);
